@@ -132,7 +132,8 @@ func (k *c12keys) loadTarget(s string) (l *label.Label, res string, outcome stri
 }
 
 // c12respell returns spellings of the package pk (absolute "//a/b" or relative "a/b" or "") that differ from it only
-// in separators: each separator doubled, all doubled, a trailing separator, two trailing, an extra one after the root.
+// in separators: each separator doubled, all doubled, a trailing separator, two trailing, an extra one after the root
+// (absolute spellings), one trailing separator (relative spellings).
 func c12respell(pk string) []string {
 	abs := strings.HasPrefix(pk, "//")
 	body := pk
@@ -149,6 +150,14 @@ func c12respell(pk string) []string {
 	}
 	out := []string{pk}
 	add := func(s string) { out = append(out, s) }
+	if !abs {
+		// in a relative spelling a doubled separator is the project syntax (sub//u is package //u of project sub):
+		// the only re-spelling is one trailing separator
+		if len(comps) > 0 {
+			add(body + "/")
+		}
+		return out
+	}
 	for i := 1; i < len(comps); i++ {
 		add(pre + strings.Join(comps[:i], "/") + "//" + strings.Join(comps[i:], "/"))
 	}
@@ -342,12 +351,12 @@ func TestVerifC12Keys(t *testing.T) {
 			ll, ls, lo := k.loadTarget(s)
 			line("find", c12hx(pkg), c12hx(s), g, c12hx(gs), lo, c12hx(ls))
 			if do == "ok" {
-				// (1) the key is a printed label
-				l2, err2 := label.Parse(d)
-				if err2 != nil || (c12eligible(l2) && l2.String() != d) {
-					line("ORACLE", "dependency_key_not_printed_label", c12hx(pkg), c12hx(s), c12hx(d))
-				}
 				if r != nil && c12eligible(r) {
+					// (1) the key is a printed label, of the label the spelling denotes
+					l2, err2 := label.Parse(d)
+					if err2 != nil || *l2 != *r || l2.String() != d {
+						line("ORACLE", "dependency_key_not_printed_label", c12hx(pkg), c12hx(s), c12hx(d))
+					}
 					// (2) one key per label, one label per key
 					if prev, ok := firstOfLabel[*r]; ok && prev.d != d {
 						line("ORACLE", "dependency_key_not_canonical", c12hx(pkg), c12hx(s), c12hx(d), c12hx(prev.s), c12hx(prev.d))
@@ -438,7 +447,7 @@ func c12keysProject(t *testing.T, root string, rng *rand.Rand, pi int, line func
 	}
 
 	modSpell := map[string][]string{
-		"//":    {"//lib:defs.dawn", "lib:defs.dawn", "//lib/:defs.dawn", "///lib:defs.dawn", "lib//:defs.dawn"},
+		"//":    {"//lib:defs.dawn", "lib:defs.dawn", "//lib/:defs.dawn", "///lib:defs.dawn", "lib/:defs.dawn"},
 		"//sub": {"//lib:defs.dawn", "//lib//:defs.dawn", "////lib/:defs.dawn"},
 	}
 	write := func(rel, content string) {
